@@ -30,6 +30,13 @@ MANIFEST = dict(
     ref="4/C06")
 
 
+def panic_key(r):
+    """frontend-panic:<source file of the panic (no line: lines shift)>:<message class>"""
+    at = (r.get("panic_at") or "?").rsplit(":", 1)[0]
+    at = at[at.index("dora-"):] if "dora-" in at else at
+    return f"frontend-panic:{at}:{panic_class(r['panic'][:200])}"
+
+
 def sema_batch(ctx, listing, tag):
     lf = os.path.join(ctx.work, f"{tag}.txt")
     open(lf, "w").write("\n".join(listing) + "\n")
@@ -81,6 +88,9 @@ def run(ctx):
             p = os.path.join(vdir, f"{i}_{k}_{tag}.dora")
             open(p, "w", encoding="utf8", newline="").write(t)
             listing.append(p)
+    # inputs that once crashed the front end (found by earlier thorough runs): always re-checked
+    import glob
+    listing += sorted(glob.glob(os.path.join(VERIF, "known", "C06", "*.dora")))
     kinds = set()
     for r in sema_batch(ctx, listing, "sema"):
         ctx.add("evaluations")
@@ -88,14 +98,14 @@ def run(ctx):
         kinds.add(os.path.basename(path).split("_")[-1] if path.startswith(vdir) else "corpus")
         if "panic" in r:
             msg = r["panic"][:200]
-            ctx.violation(f"the front end panicked on {path}: {msg}", {"path": path, "text": open(path, errors='replace').read()[:20000], "panic": r["panic"]},
-                          key="frontend-panic:" + panic_class(msg))
+            ctx.violation(f"the front end panicked on {path} at {r.get('panic_at', '?')}: {msg}", {"path": path, "text": open(path, errors='replace').read()[:20000], "panic": r["panic"], "at": r.get("panic_at")},
+                          key=panic_key(r))
             continue
         if r["ok"] != (len(r["errors"]) == 0):
             ctx.violation(f"success flag {r['ok']} contradicts {len(r['errors'])} reported errors for {path}", {"path": path}, key="success-flag")
         for e in r["errors"] + r["warnings"]:
             if not e["in_file"]:
-                ctx.violation(f"diagnostic span outside the file for {path}: {e}", {"path": path, "diagnostic": e}, key="span-outside")
+                ctx.violation(f"diagnostic span outside the file for {path}: {e}", {"path": path, "diagnostic": e}, key="span-outside:" + panic_class(e["desc"]))
                 break
     # (2b) literal spellings at the edges of the lexical grammar, in every position a literal can take, through the whole front end
     lits = literals.literals()
@@ -124,7 +134,7 @@ def run(ctx):
             ctx.violation(f"success flag {r['ok']} contradicts {len(r['errors'])} reported errors for {path}", {"path": path}, key="success-flag")
         for e in r["errors"] + r["warnings"]:
             if not e["in_file"]:
-                ctx.violation(f"diagnostic span outside the file for literal input {chunk[:3]}: {e}", {"path": path, "diagnostic": e}, key="span-outside")
+                ctx.violation(f"diagnostic span outside the file for literal input {chunk[:3]}: {e}", {"path": path, "diagnostic": e}, key="span-outside:" + panic_class(e["desc"]))
                 break
     for r in sema_batch(ctx, sorted(lfiles), "literals"):
         chunk = lfiles[r["path"]]
@@ -145,12 +155,12 @@ def run(ctx):
             if "panic" in r1:
                 hit = True
                 msg = r1["panic"][:200]
-                ctx.violation(f"the front end panicked on the literal `{L}` in position `{c}` ({literals.CONTEXTS[c].format(k=0, L=L)}): {msg}",
-                              {"literal": L, "context": c, "text": open(r1["path"]).read(), "panic": r1["panic"]}, key="frontend-panic:" + panic_class(msg))
+                ctx.violation(f"the front end panicked on the literal `{L}` in position `{c}` ({literals.CONTEXTS[c].format(k=0, L=L)}) at {r1.get('panic_at', '?')}: {msg}",
+                              {"literal": L, "context": c, "text": open(r1["path"]).read(), "panic": r1["panic"], "at": r1.get("panic_at")}, key=panic_key(r1))
         if not hit:
             msg = r["panic"][:200]
             ctx.violation(f"the front end panicked on {r['path']} (no single literal of it reproduces the panic): {msg}",
-                          {"path": r["path"], "text": open(r["path"]).read()[:20000], "panic": r["panic"]}, key="frontend-panic:" + panic_class(msg))
+                          {"path": r["path"], "text": open(r["path"]).read()[:20000], "panic": r["panic"]}, key=panic_key(r))
     # (3) the driver
     cases = [("missing.dora", None), ("empty.dora", ""), ("binary.dora", None), ("dir.dora", None)]
     ddir = os.path.join(ctx.work, "driver")
